@@ -3,7 +3,7 @@
  "name": "ind_punch_l0_iblock",
  "props": ["C09"],
  "level": "U",
- "tier": "wip",
+ "tier": "quick",
  "harness": "h_ind_punch",
  "defines": ["PUNCH_LEVEL=0", "PUNCH_MAX=12"],
  "enforce_rec": ["ind_punch"],
@@ -19,7 +19,7 @@
              "check_zero_block replaced by its contract (RET == block is all zero), proved by unit check_zero_block",
              "on an error return only 'slots the range does not meet are untouched' is claimed"],
  "native": false,
- "timeout": 600,
+ "timeout": 1500,
  "backend": "cadical"
 }
 */
@@ -28,7 +28,7 @@
  "name": "ind_punch_l0_blk",
  "props": ["C09"],
  "level": "U",
- "tier": "wip",
+ "tier": "quick",
  "harness": "h_ind_punch",
  "defines": ["PUNCH_LEVEL=0", "PUNCH_MAX=256"],
  "enforce_rec": ["ind_punch"],
@@ -44,7 +44,7 @@
              "check_zero_block replaced by its contract (RET == block is all zero), proved by unit check_zero_block",
              "on an error return only 'slots the range does not meet are untouched' is claimed"],
  "native": false,
- "timeout": 600,
+ "timeout": 1500,
  "backend": "cadical"
 }
 */
@@ -53,7 +53,7 @@
  "name": "ind_punch_l1_root",
  "props": ["C09"],
  "level": "U",
- "tier": "wip",
+ "tier": "thorough",
  "harness": "h_ind_punch",
  "defines": ["PUNCH_LEVEL=1", "PUNCH_MAX=1"],
  "enforce_rec": ["ind_punch"],
@@ -69,7 +69,7 @@
              "check_zero_block replaced by its contract (RET == block is all zero), proved by unit check_zero_block",
              "on an error return only 'slots the range does not meet are untouched' is claimed"],
  "native": false,
- "timeout": 600,
+ "timeout": 1500,
  "backend": "cadical"
 }
 */
@@ -78,7 +78,7 @@
  "name": "ind_punch_l1_blk",
  "props": ["C09"],
  "level": "U",
- "tier": "wip",
+ "tier": "thorough",
  "harness": "h_ind_punch",
  "defines": ["PUNCH_LEVEL=1", "PUNCH_MAX=256"],
  "enforce_rec": ["ind_punch"],
@@ -94,7 +94,7 @@
              "check_zero_block replaced by its contract (RET == block is all zero), proved by unit check_zero_block",
              "on an error return only 'slots the range does not meet are untouched' is claimed"],
  "native": false,
- "timeout": 600,
+ "timeout": 1500,
  "backend": "cadical"
 }
 */
@@ -103,7 +103,7 @@
  "name": "ind_punch_l2_root",
  "props": ["C09"],
  "level": "U",
- "tier": "wip",
+ "tier": "thorough",
  "harness": "h_ind_punch",
  "defines": ["PUNCH_LEVEL=2", "PUNCH_MAX=1"],
  "enforce_rec": ["ind_punch"],
@@ -119,7 +119,7 @@
              "check_zero_block replaced by its contract (RET == block is all zero), proved by unit check_zero_block",
              "on an error return only 'slots the range does not meet are untouched' is claimed"],
  "native": false,
- "timeout": 600,
+ "timeout": 1500,
  "backend": "cadical"
 }
 */
@@ -128,7 +128,7 @@
  "name": "ind_punch_l2_blk",
  "props": ["C09"],
  "level": "U",
- "tier": "wip",
+ "tier": "thorough",
  "harness": "h_ind_punch",
  "defines": ["PUNCH_LEVEL=2", "PUNCH_MAX=256"],
  "enforce_rec": ["ind_punch"],
@@ -144,7 +144,7 @@
              "check_zero_block replaced by its contract (RET == block is all zero), proved by unit check_zero_block",
              "on an error return only 'slots the range does not meet are untouched' is claimed"],
  "native": false,
- "timeout": 600,
+ "timeout": 1500,
  "backend": "cadical"
 }
 */
@@ -153,7 +153,7 @@
  "name": "ind_punch_l3_root",
  "props": ["C09"],
  "level": "U",
- "tier": "wip",
+ "tier": "thorough",
  "harness": "h_ind_punch",
  "defines": ["PUNCH_LEVEL=3", "PUNCH_MAX=1"],
  "enforce_rec": ["ind_punch"],
@@ -169,7 +169,7 @@
              "check_zero_block replaced by its contract (RET == block is all zero), proved by unit check_zero_block",
              "on an error return only 'slots the range does not meet are untouched' is claimed"],
  "native": false,
- "timeout": 600,
+ "timeout": 1500,
  "backend": "cadical"
 }
 */
@@ -178,7 +178,7 @@
  "name": "ind_punch_l3_blk",
  "props": ["C09"],
  "level": "U",
- "tier": "wip",
+ "tier": "thorough",
  "harness": "h_ind_punch",
  "defines": ["PUNCH_LEVEL=3", "PUNCH_MAX=256"],
  "enforce_rec": ["ind_punch"],
@@ -194,7 +194,7 @@
              "check_zero_block replaced by its contract (RET == block is all zero), proved by unit check_zero_block",
              "on an error return only 'slots the range does not meet are untouched' is claimed"],
  "native": false,
- "timeout": 600,
+ "timeout": 1500,
  "backend": "cadical"
 }
 */
@@ -203,7 +203,7 @@
  "name": "punch_ind",
  "props": ["C09"],
  "level": "U/k",
- "tier": "wip",
+ "tier": "quick",
  "harness": "h_punch_ind",
  "enforce": ["ext2fs_punch_ind"],
  "replace": ["ind_punch"],
